@@ -76,6 +76,10 @@ pub struct SrvCase {
     /// executed but before the handler is resumed
     #[serde(default)]
     pub cancels: bool,
+    /// clients 0 and 1 are two sessions (two cookie jars) of one user: same account names,
+    /// same passwords, same problems
+    #[serde(default)]
+    pub shared_pair: bool,
 }
 
 pub struct Service {
@@ -311,7 +315,50 @@ impl Service {
         let restarts = rng.chance(1, 5);
         // drawn last
         let cancels = rng.chance(1, 5);
-        SrvCase { clients, faults, jumps, small_names, restarts, stall, cancels }
+        // drawn last: one user with two sessions (isolation configuration only, one world in
+        // eight). Session 0 sets credentials, session 1 keeps logging in with them; what
+        // session 1 sends otherwise is its own script rewritten to the user's names and marker
+        let mut clients = clients;
+        let mut shared_pair = false;
+        let (mut faults, mut restarts, mut cancels) = (faults, restarts, cancels);
+        if !contended && rng.chance(1, 8) {
+            shared_pair = true;
+            let (n0, n1) = ("c0a".to_string(), if rng.chance(1, 2) { "c0a".to_string() } else { "c0b".to_string() });
+            let (p0, p1) = ("pw0x0".to_string(), "pw0x1".to_string());
+            let filler = |rng: &mut Rng, out: &mut Vec<Rq>| {
+                for _ in 0..rng.below(3) {
+                    out.push(match rng.below(4) {
+                        0 => Rq::List,
+                        1 => Rq::Info,
+                        2 => Rq::Add { pname: pnames[rng.below(2) as usize].into(), code: gen_code(rng, 0, 3, false), parsing: "Naive".into() },
+                        _ => Rq::Get { pname: pnames[rng.below(2) as usize].into() },
+                    });
+                }
+            };
+            let mut s0 = vec![Rq::Register { name: n0.clone(), pw: p0.clone() }, Rq::Login { name: n0.clone(), pw: p0.clone() }];
+            filler(rng, &mut s0);
+            s0.push(Rq::Update { name: n1.clone(), pw: p1.clone() });
+            filler(rng, &mut s0);
+            s0.push(Rq::Logout);
+            s0.push(Rq::Login { name: n1.clone(), pw: if rng.chance(1, 4) { p0.clone() } else { p1.clone() } });
+            s0.push(Rq::List);
+            let mut s1 = Vec::new();
+            for _ in 0..rng.range(2, 4) {
+                s1.push(Rq::Login { name: if rng.chance(1, 4) { n1.clone() } else { n0.clone() }, pw: if rng.chance(1, 5) { p1.clone() } else { p0.clone() } });
+                filler(rng, &mut s1);
+                if rng.chance(1, 2) {
+                    s1.push(Rq::Logout);
+                }
+            }
+            s1.push(Rq::Login { name: n1.clone(), pw: p1.clone() });
+            s1.push(Rq::List);
+            clients[0] = s0;
+            clients[1] = s1;
+            faults = false;
+            restarts = false;
+            cancels = false;
+        }
+        SrvCase { clients, faults, jumps, small_names, restarts, stall, cancels, shared_pair }
     }
 
     /// More than ten statements (string-encoded positions "10", "11" sort before "2"): only
@@ -396,7 +443,7 @@ impl Service {
         }
         // drawn last
         let cancels = rng.chance(1, 6);
-        SrvCase { clients, faults, jumps, small_names: false, restarts, stall, cancels }
+        SrvCase { clients, faults, jumps, small_names: false, restarts, stall, cancels, shared_pair: false }
     }
 }
 
@@ -475,6 +522,17 @@ pub struct Run<'a> {
     /// schedule as (actor, action) records, for the solo re-execution (O5)
     pub had_restart: bool,
     pub had_cancel: bool,
+    /// model of the credentials: account name -> password most recently set by an acknowledged
+    /// register / update (isolation configuration: an account name belongs to one user)
+    pub cred_model: BTreeMap<String, String>,
+    /// two account-changing requests were in flight at once: acknowledgement order no longer
+    /// tells which password was set last
+    pub cred_model_tainted: bool,
+    /// account-changing requests in flight
+    pub acct_changes_inflight: u32,
+    /// login requests in flight (tag) that overlapped an account-changing request
+    pub login_overlapped: BTreeSet<String>,
+    pub logins_inflight: BTreeSet<String>,
     pub actions: Vec<crate::solo::ActRec>,
     /// per client: (request ordinal, status, canonical body) of every scripted request
     pub obs: Vec<crate::solo::Obs>,
@@ -524,6 +582,15 @@ impl<'a> Run<'a> {
 
     fn strict(&self, c: usize) -> bool {
         self.svc_cfg.name == "isolation" && !self.case.faults && self.cl[c].exact
+    }
+
+    /// which user a client (a session) belongs to
+    fn principal(&self, c: usize) -> usize {
+        if self.case.shared_pair && c == 1 {
+            0
+        } else {
+            c
+        }
     }
 
     fn build_request(&self, c: usize, rq: &Rq) -> actix_http::Request {
@@ -621,11 +688,11 @@ impl<'a> Run<'a> {
                     if obtains {
                         if let (Some(a), Some(c)) = (&t.after, actor_client) {
                             let name = doc_str(a, "username").unwrap_or_default();
-                            if self.orphan_sessions.iter().any(|(oc, on)| *oc != c && *on == name) {
+                            if self.orphan_sessions.iter().any(|(oc, on)| self.principal(*oc) != self.principal(c) && *on == name) {
                                 self.relaxed_names.insert(name.clone());
                                 self.stats.inc("relaxed_name_reused_under_stale_session_after_lost_ack");
                             }
-                            let hit: Vec<String> = self.windows.iter().filter(|(wc, old, _)| *wc != c && *old == name).map(|(_, _, new)| new.clone()).collect();
+                            let hit: Vec<String> = self.windows.iter().filter(|(wc, old, _)| self.principal(*wc) != self.principal(c) && *old == name).map(|(_, _, new)| new.clone()).collect();
                             if !hit.is_empty() {
                                 // from now on problems filed under the old name belong to two
                                 // accounts at once: the renaming one (new name) and the newcomer
@@ -674,7 +741,7 @@ impl<'a> Run<'a> {
                         continue; // an insert creates, it does not modify foreign data
                     }
                     let owner = tag_client(&t.prov);
-                    if owner.is_some() && owner != Some(ac) {
+                    if owner.is_some() && owner.map(|o| self.principal(o)) != Some(self.principal(ac)) {
                         let uname = t.before.as_ref().and_then(|d| doc_str(d, "username")).unwrap_or_default();
                         let fuser = doc_str(&ev.filter, "username").unwrap_or_default();
                         let stale = is_bg && self.w.cont_gate.get(&ev.gate).and_then(|tid| self.w.tasks.get(tid)).map(|t| t.doc_id != Some(t_id(t, &ev))).unwrap_or(false);
@@ -742,7 +809,7 @@ impl<'a> Run<'a> {
         let had_cookie = tag.contains("+ck");
         // O1: no foreign marker in any response
         for d in 0..self.cl.len() {
-            if d != c && resp.body.contains(&marker(d)) {
+            if self.principal(d) != self.principal(c) && resp.body.contains(&marker(d)) {
                 let acct = self.cl[c].acct.clone().unwrap_or_default();
                 let stale = self.o16.response_touches_stale(&resp.body);
                 let key = if self.tainted_names.contains(&acct) {
@@ -766,8 +833,17 @@ impl<'a> Run<'a> {
         }
         let ok = resp.status == 200;
         let strict = self.strict(c);
+        if matches!(rq, Rq::Register { .. } | Rq::Update { .. } | Rq::DeleteAccount) {
+            self.acct_changes_inflight = self.acct_changes_inflight.saturating_sub(1);
+        }
+        let login_overlapped = self.login_overlapped.remove(tag);
+        self.logins_inflight.remove(tag);
         match rq {
-            Rq::Register { .. } => {}
+            Rq::Register { name, pw } => {
+                if ok {
+                    self.cred_model.insert(name.clone(), pw.clone());
+                }
+            }
             Rq::Login { name, pw } => {
                 // O4: the account looked up is the one named, byte for byte
                 if let Some(found_name) = self.login_found_name.remove(tag) {
@@ -792,6 +868,19 @@ impl<'a> Run<'a> {
                 } else if ok {
                     let v = Violation::new("O4-login", "accepted-without-lookup", format!("client {c} login as {name:?} acknowledged although no account document was read"));
                     self.viol(v);
+                }
+                // O4, against the model: acknowledged iff the password is the one most recently
+                // set for that account by an acknowledged register / update. Judged where the
+                // model is exact: account names belong to one user (isolation configuration), no
+                // fault, restart or disconnect, no two account changes in flight at once, and no
+                // account change in flight while this login was
+                if self.svc_cfg.name == "isolation" && !self.case.faults && !self.had_restart && !self.had_cancel && !self.cred_model_tainted && !login_overlapped && resp.status != 500 {
+                    let expect = self.cred_model.get(name).map(|p| p == pw).unwrap_or(false);
+                    self.stats.inc("logins_judged_against_credential_model");
+                    if expect != ok {
+                        let v = Violation::new("O4-login", if ok { "accepted-password-not-most-recently-set" } else { "rejected-most-recently-set-password" }, format!("client {c} login as {name:?} with {pw:?}: status {}; the password most recently set for that account by an acknowledged register/update is {:?}", resp.status, self.cred_model.get(name)));
+                        self.viol(v);
+                    }
                 }
                 if ok {
                     self.cl[c].acct = Some(name.clone());
@@ -820,6 +909,16 @@ impl<'a> Run<'a> {
             }
             Rq::Update { name, pw } => {
                 if ok {
+                    match self.cl[c].acct.clone() {
+                        Some(old) => {
+                            if old != *name {
+                                self.cred_model.remove(&old);
+                            }
+                        }
+                        // which account was changed is not known to the model
+                        None => self.cred_model_tainted = true,
+                    }
+                    self.cred_model.insert(name.clone(), pw.clone());
                     self.cl[c].creds = Some((name.clone(), pw.clone()));
                     if let Some(old) = self.cl[c].acct.clone() {
                         if old != *name {
@@ -833,6 +932,12 @@ impl<'a> Run<'a> {
             }
             Rq::DeleteAccount => {
                 if ok {
+                    match self.cl[c].acct.clone() {
+                        Some(a) => {
+                            self.cred_model.remove(&a);
+                        }
+                        None => self.cred_model_tainted = true,
+                    }
                     if let Some(a) = self.cl[c].acct.take() {
                         self.cl[c].model.remove(&a);
                     }
@@ -922,7 +1027,7 @@ impl<'a> Run<'a> {
                                 _ => {}
                             }
                             let tasks = self.w.tasks.clone();
-                            if let Some(v) = foreign_running_task(c, &acct, pname, &j, &tasks) {
+                            if let Some(v) = foreign_running_task(c, &acct, pname, &j, &tasks, self.case.shared_pair) {
                                 self.viol_client(c, v);
                             }
                             let exact = self.cl[c].exact && !self.case.faults;
@@ -942,7 +1047,7 @@ impl<'a> Run<'a> {
                         let tasks = self.w.tasks.clone();
                         for p in j.as_array().cloned().unwrap_or_default() {
                             let pn = p["name"].as_str().unwrap_or("").to_string();
-                            if let Some(v) = foreign_running_task(c, &self.cl[c].acct.clone().unwrap_or_default(), &pn, &p, &tasks) {
+                            if let Some(v) = foreign_running_task(c, &self.cl[c].acct.clone().unwrap_or_default(), &pn, &p, &tasks, self.case.shared_pair) {
                                 self.viol_client(c, v);
                             }
                         }
@@ -1011,15 +1116,16 @@ impl<'a> Run<'a> {
 /// Non-interference on `running_tasks`: every task a client sees listed for one of its
 /// problems must be a task one of its own requests started (lenient about which of the
 /// client's accounts) that has not ended — never another client's task.
-fn foreign_running_task(c: usize, acct: &str, pname: &str, j: &serde_json::Value, tasks: &BTreeMap<u64, crate::world::TaskMeta>) -> Option<Violation> {
+fn foreign_running_task(c: usize, acct: &str, pname: &str, j: &serde_json::Value, tasks: &BTreeMap<u64, crate::world::TaskMeta>, shared_pair: bool) -> Option<Violation> {
+    let prin = |x: usize| if shared_pair && x == 1 { 0 } else { x };
     for r in j["running_tasks"].as_array()? {
         let name = match (r["type"].as_str(), r["content"].as_str()) {
             (Some("Parse"), _) => "Parse".to_string(),
             (Some("Solve"), Some(s)) => format!("Solve({s})"),
             _ => format!("{r}"),
         };
-        let own = tasks.values().any(|t| t.client == c && t.adf_name == pname && t.task == name && !t.ended);
-        let foreign: Vec<&crate::world::TaskMeta> = tasks.values().filter(|t| t.client != c && t.adf_name == pname && t.task == name && !t.ended).collect();
+        let own = tasks.values().any(|t| prin(t.client) == prin(c) && t.adf_name == pname && t.task == name && !t.ended);
+        let foreign: Vec<&crate::world::TaskMeta> = tasks.values().filter(|t| prin(t.client) != prin(c) && t.adf_name == pname && t.task == name && !t.ended).collect();
         if !own && !foreign.is_empty() {
             let v = Violation::new("O5-non-interference", "foreign-running-task", format!("client {c} ({acct}) sees task {name} listed as running for its problem {pname}, but only another client has such a task in flight (started under account {:?})", foreign.iter().map(|t| t.username.clone()).collect::<Vec<_>>()));
             // cause: the viewer now holds the very account name under which the other client
@@ -1143,7 +1249,7 @@ async fn run_world(svc_cfg: &Service, case: &SrvCase, dec: Decisions, seed_for_k
         svc_cfg,
         case,
         w,
-        cl: (0..n).map(|_| ClientSt { exact: true, ..Default::default() }).collect(),
+        cl: (0..n).map(|c| ClientSt { exact: !(case.shared_pair && c < 2), ..Default::default() }).collect(),
         dec: dec.clone(),
         stats: Stats::default(),
         log: Fnv::new(),
@@ -1166,6 +1272,11 @@ async fn run_world(svc_cfg: &Service, case: &SrvCase, dec: Decisions, seed_for_k
         o16: oracle16::State::default(),
         had_restart: false,
         had_cancel: false,
+        cred_model: BTreeMap::new(),
+        cred_model_tainted: false,
+        acct_changes_inflight: 0,
+        login_overlapped: BTreeSet::new(),
+        logins_inflight: BTreeSet::new(),
         actions: Vec::new(),
         obs: (0..n).map(|_| Vec::new()).collect(),
     };
@@ -1314,6 +1425,20 @@ async fn run_world(svc_cfg: &Service, case: &SrvCase, dec: Decisions, seed_for_k
                 if !synthetic {
                     run.cl[c].pos += 1;
                 }
+                if matches!(rq, Rq::Register { .. } | Rq::Update { .. } | Rq::DeleteAccount) {
+                    if run.acct_changes_inflight > 0 {
+                        run.cred_model_tainted = true;
+                    }
+                    run.acct_changes_inflight += 1;
+                    let l: Vec<String> = run.logins_inflight.iter().cloned().collect();
+                    run.login_overlapped.extend(l);
+                }
+                if matches!(rq, Rq::Login { .. }) {
+                    run.logins_inflight.insert(tag.clone());
+                    if run.acct_changes_inflight > 0 {
+                        run.login_overlapped.insert(tag.clone());
+                    }
+                }
                 run.cl[c].current = Some(rq.clone());
                 run.cl[c].busy = true;
                 run.actions.push(crate::solo::ActRec { client: c, kind: crate::solo::ActKind::Issue });
@@ -1361,10 +1486,12 @@ async fn run_world(svc_cfg: &Service, case: &SrvCase, dec: Decisions, seed_for_k
                 }
                 run.login_found.clear();
                 run.had_restart = true;
+                run.cred_model_tainted = true;
             }
             Act::Cancel(c) => {
                 cancels_done += 1;
                 run.had_cancel = true;
+                run.cred_model_tainted = true;
                 let g = gates.iter().find(|g| g.tag.as_deref().map(|t| tag_client(t) == Some(c) && !t.contains("final")).unwrap_or(false)).unwrap().clone();
                 let tag = g.tag.clone().unwrap_or_default();
                 let after = dec.borrow_mut().choose("cancel", 2) == 1;
@@ -1436,7 +1563,7 @@ async fn run_world(svc_cfg: &Service, case: &SrvCase, dec: Decisions, seed_for_k
     run.w.teardown().await;
     names::sim_install(None);
     // O5: every client again, alone, under the projection of the same schedule
-    if svc_cfg.name == "isolation" && !case.small_names && !run.had_restart && !run.had_cancel && run.violation.is_none() && run.w.harness_error.is_none() && run.w.hung_task.is_none() && seed_for_key % 2 == 0 {
+    if svc_cfg.name == "isolation" && !case.small_names && !run.had_restart && !run.had_cancel && !case.shared_pair && run.violation.is_none() && run.w.harness_error.is_none() && run.w.hung_task.is_none() && seed_for_key % 2 == 0 {
         for c in 0..n {
             if case.clients[c].is_empty() {
                 continue;
@@ -1541,7 +1668,7 @@ async fn final_phase(run: &mut Run<'_>) {
                 run.log.u64(cc as u64).u64(resp.status as u64).str(&canonical_body(&resp.body));
                 // O1 again
                 for d in 0..n {
-                    if d != cc && resp.body.contains(&marker(d)) {
+                    if run.principal(d) != run.principal(cc) && resp.body.contains(&marker(d)) {
                         let stale = run.o16.response_touches_stale(&resp.body);
                         let key = if run.tainted_names.contains(&acct) {
                             "O1/user.rs:update_user/name-reuse-inside-rename-window".to_string()
